@@ -22,6 +22,12 @@ CHECKS["C14"] = dict(
    note="Trusted: CBMC, lowering, intrinsic models, libc memcmp, page model (objects are whole 4096-byte pages; pointer low bits == offset low bits). movemask+1 signed wrap is an observation. findMemberImpl/Less callers and std::multimap are not under contract (DOM classes).",
    technique="CBMC contract proofs: complete loop-free harnesses over symbolic page offsets + DFCC loop contracts with ghost indices")
 
+CHECKS["C16"] = dict(
+   text="Contract proofs, complete over every well-formed pool state (head chunk of any capacity/fill <= 2^48, optional older chunk, any policy state, both chunk policies): Malloc (with AddChunk/GetChunkBuffer inlined, ChunkSize by contract) returns null or an 8-aligned block wholly inside the head chunk directly behind what was handed out, or at the start of a fresh chunk; zero size -> null; its frame contains no chunk-buffer byte. Realloc: shrink keeps the pointer, growth is in place only for the last block with room in the head chunk, otherwise a Malloc block whose first bytes equal the old contents (ghost index); it writes only at or behind the old bump pointer. Two consecutive Mallocs are disjoint. ChunkSize >= request with defined clz/shift. Chunk-list walks (Clear/Size/Capacity), destructor and copy assignment (incl. self-assignment and assignment between copies) are bounded stand-ins over pools of <= 3 chunks.",
+   design_ref="DESIGN.md section 5 (C16)",
+   note="Trusted: CBMC, lowering, the BaseAllocator stub (null or fresh block; free), libc memcpy contract. Stated bound 2^48 on sizes/capacities. Constructors (member-initialiser lists), move operations and the locked-allocator option are not under contract. The last-block test in Realloc forms an out-of-object pointer that is only compared (observation job).",
+   technique="CBMC function contracts enforced by DFCC on mechanically sliced member functions (loop-free: complete); bounded unwinding for list walks")
+
 NOT_APPLICABLE = {
  "C01": "driver parseImpl is a goto state machine over C++ containers and a templated SAX handler; no contract lowering achieved yet (leaf recognisers are proved under C04/C05/C11)",
  "C02": "same driver as C01 plus DOM classes/destructors; allocator-kind and leak clauses need the C++ object model CBMC's front end cannot parse",
